@@ -10,7 +10,8 @@ LEVEL = 'fault_enumeration'
 ASSUMPTIONS = [
     'a restart = dump() of the running instance right after its suggest (what the designer policy stores), serialised through vz.Metadata -> StudySpec proto bytes -> vz.Metadata, a fresh instance from the same factory arguments, load()',
     'deterministic designers (grid, shuffled grid, quasi-random, eagle with its persisted rng) must give identical suggestions; for randomised evolutionary designers (NSGA-II, CMA-ES), whose random stream is not part of the state, the restored instance is compared with the dumped one right after load(): population, phase counter, queued trials, serialised state',
-    'objective feedback is a fixed function of the suggested parameters',
+    'objective feedback is a fixed function of the suggested parameters; the completed trials of a step are fed back in suggestion order and in reversed order',
+    'besides all short sequences, long sequences (7-12 steps, past the first phase of eagle / NSGA-II) are run with a restart at each single position, at every position and at every other position',
 ]
 
 
@@ -77,7 +78,7 @@ def state_view(name, d):
   return {}
 
 
-def run_sequence(name, mk, mode, prob, seed, batches, restarts):
+def run_sequence(name, mk, mode, prob, seed, batches, restarts, order='in'):
   """Returns (suggestions per step, final state view) with restarts before the steps in `restarts`."""
   from vizier import algorithms as vza
   from vizier import pyvizier as vz
@@ -96,7 +97,9 @@ def run_sequence(name, mk, mode, prob, seed, batches, restarts):
       after = state_view(name, d)
       if before != after:
         load_diffs.append((step, {k: (before[k], after.get(k)) for k in before if before[k] != after.get(k)}))
-    d.update(vza.CompletedTrials(pending), vza.ActiveTrials([]))
+    # completions may reach the designer in any order
+    fed = list(reversed(pending)) if order == 'reversed' else pending
+    d.update(vza.CompletedTrials(fed), vza.ActiveTrials([]))
     sugg = list(d.suggest(b))
     out.append([s.parameters.as_dict() for s in sugg])
     md = d.dump()
@@ -119,19 +122,30 @@ def shard(task):
     goals = ('MAXIMIZE', 'MINIMIZE') if name == 'nsga2' else ('MAXIMIZE',)
     prob = c03.problem(keys, goals)
     for seed in task['seeds']:
+      plans = []
       for L in range(1, task['maxlen'] + 1):
         for batches in itertools.product((1, 2, 3), repeat=L):
+          for order in ('in', 'reversed'):
+            if order == 'reversed' and max(batches[:-1] or (1,)) == 1:
+              continue   # nothing to reorder
+            plans.append((batches, order, [c for r in range(1, L + 1) for c in itertools.combinations(range(1, L), r)]))
+      for batches in task.get('long', []):
+        L = len(batches)
+        for order in ('in', 'reversed'):
+          plans.append((tuple(batches), order, [(k,) for k in range(1, L)] + [tuple(range(1, L)), tuple(range(1, L, 2))]))
+      for batches, order, restart_sets in plans:
+          L = len(batches)
           try:
-            base, base_state, _ = run_sequence(name, mk, mode, prob, seed, batches, set())
+            base, base_state, _ = run_sequence(name, mk, mode, prob, seed, batches, set(), order)
           except Exception as e:  # pylint: disable=broad-except
             refused += 1
             continue
-          for r in range(1, L + 1):
-            for restarts in itertools.combinations(range(1, L), r):
+          for restarts in restart_sets:
+            if True:
               n += 1
               nontriv += 1
               try:
-                got, got_state, _ = run_sequence(name, mk, mode, prob, seed, batches, set(restarts))
+                got, got_state, _ = run_sequence(name, mk, mode, prob, seed, batches, set(restarts), order)
               except Exception as e:  # pylint: disable=broad-except
                 sig = 'C13|restart-raises|%s|%s' % (name, type(e).__name__)
                 vios.setdefault(sig, {'sig': sig, 'desc': '%s on %s seed %d batches %s restarts %s: %r' % (name, keys, seed, batches, restarts, e),
@@ -140,8 +154,8 @@ def shard(task):
               if mode == 'identical' and got != base:
                 step = [i for i, (a, b) in enumerate(zip(base, got)) if a != b][0]
                 sig = 'C13|suggestions-differ|%s' % name
-                vios.setdefault(sig, {'sig': sig, 'desc': '%s on %s seed %d batches %s restarts before steps %s: step %d suggests %s, the live instance suggested %s'
-                                      % (name, keys, seed, batches, restarts, step, got[step], base[step]),
+                vios.setdefault(sig, {'sig': sig, 'desc': '%s on %s seed %d batches %s (completions fed %s order) restarts before steps %s: step %d suggests %s, the live instance suggested %s'
+                                      % (name, keys, seed, batches, order, restarts, step, got[step], base[step]),
                                       'case': {'designer': name, 'space': list(keys), 'seed': seed, 'batches': list(batches), 'restarts': list(restarts)}})
               if mode == 'state' and got_state:
                 step, diff = got_state[0]
@@ -217,6 +231,10 @@ def run(ctx):
     for sp in spaces[: (2 if q else len(spaces))]:
       tasks.append(('shard', {'designer': name, 'spaces': [sp], 'seeds': [ctx.seed + 1] if q else [ctx.seed + 1, ctx.seed + 2],
                               'maxlen': (3 if heavy else 4) if q else (4 if heavy else 5)}))
+  # long runs: past the point where the eagle pool is full / the evolutionary designers have left their first phase
+  for name, sp in (('eagle', ('d01', 'd-55', 'c5')), ('eagle', ('d01', 'd-55')), ('nsga2', ('d01', 'd-55')), ('quasi_random', ('d01', 'c5')), ('shuffled_grid', ('i-22', 'c2'))):
+    for seed in ([ctx.seed + 1, ctx.seed + 2] if q else [ctx.seed + 1, ctx.seed + 2, ctx.seed + 3]):
+      tasks.append(('shard', {'designer': name, 'spaces': [sp], 'seeds': [seed], 'maxlen': 0, 'long': [[3] * 7, [2, 3, 1, 3, 2, 3, 3, 2]] if q else [[3] * 9, [2, 3, 1, 3, 2, 3, 3, 2, 3], [1] * 12]}))
   tasks.append(('shard_service', {'backends': ['ram'], 'algos': ['GRID_SEARCH', 'SHUFFLED_GRID_SEARCH'], 'maxlen': 3 if q else 4}))
   tasks.append(('shard_service', {'backends': ['sqlmem'] if q else ['sqlmem', 'sqlfile'], 'algos': ['GRID_SEARCH'], 'maxlen': 3 if q else 4}))
   tot = nontriv = refused = 0
